@@ -269,6 +269,8 @@ func runC01(c *Check) {
 	c.ruleConstIndexGuarded("R10", "spynode", "handlers", "state")
 	c.ruleEmptyMeansAllEmpty("R11")
 	c.ruleBenignSentinelsHandled("R12")
+	c.ruleTimeoutsFire("R14")
+	c.ruleFilledRequestsGoOut("R13", "handlers.(*HeadersHandler).Handle", "spynode.(*Node).processBlocks")
 }
 
 func containsBefore(in ssa.Instruction, set []ssa.Instruction) bool {
